@@ -38,7 +38,7 @@ def bs_case(kind, call, greek, shape=(1,)):
         from pfhedge.nn import BSAmericanBinaryOption, BSEuropeanBinaryOption, BSEuropeanOption, BSLookbackOption
 
         K = api.real(c, "K", pos=True)
-        s = api.tensor(c, "s", shape, lo=-1, hi=1) if c.mode == "concrete" else api.tensor(c, "s", shape)
+        s = api.tensor(c, "s", shape)
         t = api.tensor(c, "t", shape, pos=True)
         v = api.tensor(c, "v", shape, pos=True)
         with facades.real_torch():
